@@ -677,6 +677,10 @@ class WindowedDStream(DStream):
         if time_ <= self._current_time:
             return
 
+        # advance the guard on every tick, also on those that emit nothing:
+        # otherwise every consumer appends the same batch again
+        self._current_time = time_
+
         self._prev._step(time_)
         self._window.append(self._prev._current_rdd)
 
@@ -689,7 +693,6 @@ class WindowedDStream(DStream):
         if self._slide_counter != 0:
             return
 
-        self._current_time = time_
         self._current_rdd = self._context._context.union(self._window)
 
 
